@@ -250,6 +250,39 @@ def run(ctx):
         missing = [x[0] for x in need if not any(y in calls for y in x)]
         r.ob(f.sig, "source `%s` reset" % src, not missing, "calls on the source: %s; missing %s" % (calls, missing), "%s:%d" % (f.file.split("/Include/")[-1], f.line))
     rules.append(r)
+    # ---------------- SB-bytes: byte counts handed to the raw memory routines
+    r = Rule("SB-bytes", "Memory::Copy / SetToZero receive a byte count: an element count times the element size", floor=12)
+    for f in m.functions:
+        if f.inst or f.file.endswith("Memory.hpp") or f.file.endswith("QTest.hpp"):
+            continue
+        for c in astq.calls(f):
+            nm = f.call_simple_name(c)
+            full, _ = f.callee_name(c)
+            if nm not in ("Copy", "SetToZero") or "Memory" not in (full or "Memory") or f.call_receiver(c) is not None:
+                continue
+            args = f.call_args(c)
+            if len(args) != (3 if nm == "Copy" else 2):
+                continue
+            ctx.note_fn(f)
+            sz = f.nodes[f.strip_casts(args[-1])]
+            width_ok = False
+            shown = f.text(args[-1])
+            if sz["k"] == "BinaryOperator" and sz["op"] == "*":
+                for side in sz["ch"]:
+                    sn = f.nodes[f.strip_casts(side)]
+                    if sn["k"] == "UnaryExprOrTypeTraitExpr" and sn.get("trait") == "sizeof":
+                        width_ok = True
+                    if sn["k"] == "DeclRefExpr":
+                        # a local constant initialised with sizeof(..)
+                        for st_ in astq.nodes_of(f, "DeclStmt"):
+                            for d in f.nodes[st_]["decls"]:
+                                if d.get("d") == sn.get("d") and d.get("init", -1) >= 0:
+                                    ini = [f.nodes[x] for x in f.walk(d["init"])]
+                                    if any(x["k"] == "UnaryExprOrTypeTraitExpr" and x.get("trait") == "sizeof" for x in ini) and not any(x["k"] == "BinaryOperator" for x in ini):
+                                        width_ok = True
+            r.ob(f.sig if f.cls else f.q, f.text(c)[:70], width_ok, "size argument `%s` %s" % (shown[:50], "is count * sizeof(element)" if width_ok else
+                 "is not scaled by the element size: for 2- and 4-byte character types only a fraction of the elements is copied"), f.loc(c))
+    rules.append(r)
     from rules.common import rule_narrow_units
     rules.append(rule_narrow_units(ctx, m, ["StringUtils.hpp", "String.hpp", "StringStream.hpp", "StringView.hpp"]))
     return rules
